@@ -22,7 +22,8 @@ theorem put_logs_before_memstore :
     allBefore .walAppend .memUpsert p = true ∧ allBefore .walAppendSync .memUpsert p = true ∧
     allBefore .walAppend .memDelete d = true ∧ allBefore .walAppendSync .memDelete d = true ∧
     count .memUpsert p = 1 ∧ count .memDelete d = 1 ∧
-    condsAround .walAppend [] p = [["simpledb.DB.enableAsyncWAL"]] ∧ condsAround .walAppendSync [] p = [["else: simpledb.DB.enableAsyncWAL"]] ∧
+    condsAround .walAppend [] p = [["simpledb.DB.enableAsyncWAL", "!simpledb.DB.closed", "simpledb.DB.open"]] ∧
+    condsAround .walAppendSync [] p = [["else: simpledb.DB.enableAsyncWAL", "!simpledb.DB.closed", "simpledb.DB.open"]] ∧
     condsAround .walAppend [] d = [["simpledb.DB.enableAsyncWAL"]] ∧ condsAround .walAppendSync [] d = [["else: simpledb.DB.enableAsyncWAL"]] := by
   decide +kernel
 
@@ -31,12 +32,12 @@ record and its WAL file travel together; the upsert itself is unconditional, the
 theorem put_memstore_before_rotate :
     let p := itemsOf "DB.PutBytes"
     inOrder [.lock, .memUpsert, .memSizeEstimate, .rotateAndHandOff] p = true ∧
-    -- the upsert: reached once the two state guards are passed, under no other condition; the rotation: once, in addition,
-    -- the guard "estimated size within the limit → return" is passed (normal form of `if size > max { return rotate() }`)
-    pathConds .memUpsert p = [["not: simpledb.DB.closed", "not: !simpledb.DB.open"]] ∧
+    -- the upsert: reached when the two state checks hold, under no other condition; the rotation: when, in addition,
+    -- the estimated size exceeds the limit (normal form of `if size > max { return rotate() }` inside a called body)
+    pathConds .memUpsert p = [["!simpledb.DB.closed", "simpledb.DB.open"]] ∧
     pathConds .rotateAndHandOff p =
-      [["not: simpledb.DB.memstoreMaxSize >= simpledb.DB.memStore.EstimatedSizeInBytes()", "not: simpledb.DB.closed",
-        "not: !simpledb.DB.open"]] ∧
+      [["simpledb.DB.memstoreMaxSize < simpledb.DB.memStore.EstimatedSizeInBytes()", "!simpledb.DB.closed",
+        "simpledb.DB.open"]] ∧
     lastAmong .rotateAndHandOff [.walAppend, .walAppendSync, .memUpsert, .memDelete] p = true ∧
     noOther p = true ∧ noOther (itemsOf "DB.DeleteBytes") = true := by decide +kernel
 
